@@ -125,8 +125,8 @@ def simplify_app(fname, attrs, args):
       return NF.const(0)
     if cs[0] == 2:
       return NF.atom(LN2_ATOM)
-  if fname == "reshape" and isinstance(args[0], NF):
-    return args[0]     # element-wise identity (shape only)
+  if fname in ("reshape", "variable") and isinstance(args[0], NF):
+    return args[0]     # element-wise identity (shape only / variable read)
   if fname == "join":
     uniq = []
     for a in args:
@@ -512,6 +512,16 @@ class Eval(object):
     if nf.is_zero():
       return 0
     ab = self.affine_x(nf)
+    if ab is None and self.env.open_region:
+      # piecewise-affine in x (relu / clip / abs of affine arguments)
+      from . import pwa
+      lo_, hi_ = self.env.x.bounds()
+      try:
+        ab = pwa.Affine(lo_, hi_).nf(nf)
+        if ab[0] == 0:
+          return (ab[1] > 0) - (ab[1] < 0)
+      except (pwa.Split, pwa.NotAffine):
+        ab = None
     if ab is not None and ab[0] != 0 and self.env.open_region:
       a, b = ab
       root = -b / a
@@ -741,6 +751,28 @@ def equal_mod_finite(a, b, env=None, max_atoms=3, _budget=None):
   return True
 
 
+def expand_logs(nf):
+  """log of a single monomial -> sum of logs of its (positive) factors.
+  Only valid when every atom of the monomial is positive; callers state
+  that assumption."""
+  mapping = {}
+  for a in nf.atoms():
+    if a[0] == "app" and a[1] == "log":
+      sm = a[3][0].single_monomial()
+      if sm is not None and sm[1] > 0 and (len(sm[0]) > 1 or sm[1] != 1 or
+                                           (sm[0] and sm[0][0][1] != 1)):
+        m, c = sm
+        r = NF()
+        if c != 1:
+          r = r + NF.sym("ln(%s)" % c) if c != 2 else r + NF.atom(LN2_ATOM)
+        for at, e in m:
+          r = r + NF.app("log", (NF.atom(at),)) * e
+        mapping[a] = r
+  if not mapping:
+    return nf
+  return expand_logs(nf.subst(mapping, simplify_app))
+
+
 def value_set(nf, env=None):
   return Eval(env or Env()).nf(nf)
 
@@ -788,8 +820,25 @@ class Deriv(object):
       return None
     return (Fraction(target) - b) / a
 
+  def _pwa_root(self, nf, target):
+    """Root of nf == target when nf is piecewise affine in x on the current
+    region (kinks of inner relu/clip/abs atoms split the region first)."""
+    from . import pwa
+    lo, hi = self.env.x.bounds()
+    try:
+      a, b = pwa.Affine(lo, hi).nf(nf)
+    except pwa.Split as s:
+      raise NeedSplit(s.point)
+    except pwa.NotAffine:
+      return None
+    if a == 0:
+      return None
+    return (Fraction(target) - b) / a
+
   def _split_or_unknown(self, nf, target, what):
     p = self._affine_root(nf, target)
+    if p is None:
+      p = self._pwa_root(nf, target)
     if p is not None:
       lo, hi = self.env.x.bounds()
       if (lo is None or p > lo) and (hi is None or p < hi):
